@@ -65,3 +65,26 @@ CONTEXTS = {
     "encrypt::EncryptionContext": {"CoseEncrypt": "Encrypt", "CoseEncrypt0": "Encrypt0", "EncRecipient": "Enc_Recipient",
                                    "MacRecipient": "Mac_Recipient", "RecRecipient": "Rec_Recipient"},
 }
+
+# Encoder side of the map-shaped structures: label -> [(field, emitted kind, omission guard)] in emission order.
+# RFC 8152 section 3.1 (header_map), section 7 (COSE_Key); guards: optional parameters are omitted when absent/empty.
+HEADER_EMIT = [
+    (1, "alg", "nested<common::RegisteredLabelWithPrivate<iana::Algorithm>>", ["some:alg"]),
+    (2, "crit", "array<common::RegisteredLabel<iana::HeaderParameter>>", ["nonempty:crit"]),
+    (3, "content_type", "nested<common::RegisteredLabel<iana::CoapContentFormat>>", ["some:content_type"]),
+    (4, "key_id", "bstr", ["nonempty:key_id"]),
+    (5, "iv", "bstr", ["nonempty:iv"]),
+    (6, "partial_iv", "bstr", ["nonempty:partial_iv"]),
+    (7, "counter_signatures", "first-of<sign::CoseSignature>", ["nonempty:counter_signatures", "len==1:counter_signatures"]),
+    (7, "counter_signatures", "array<sign::CoseSignature>", ["nonempty:counter_signatures", "len!=1:counter_signatures"]),
+]
+HEADER_EXTRAS = "rest"
+
+KEY_EMIT = [
+    (1, "kty", "nested<common::RegisteredLabel<iana::KeyType>>", ["always"]),
+    (2, "key_id", "bstr", ["nonempty:key_id"]),
+    (3, "alg", "nested<common::RegisteredLabelWithPrivate<iana::Algorithm>>", ["some:alg"]),
+    (4, "key_ops", "array<common::RegisteredLabel<iana::KeyOperation>>", ["nonempty:key_ops"]),
+    (5, "base_iv", "bstr", ["nonempty:base_iv"]),
+]
+KEY_EXTRAS = "params"
